@@ -2,6 +2,8 @@ package conc
 
 import (
 	"fmt"
+	"io"
+	"log"
 	"strings"
 	"testing"
 	"testing/synctest"
@@ -523,7 +525,7 @@ func (p yieldingPeer) Send() chan<- wamp.Message {
 	return p.Peer.Send()
 }
 
-var directedShut = []string{"F8-timer-after-close", "F8b-timers-at-close", "F9-attach-after-close", "F26-welcome-vs-close",
+var directedShut = []string{"F8-timer-after-close", "F8b-timers-at-close", "F9-attach-after-close", "F9b-attach-racing-close", "F26-welcome-vs-close",
 	"F27b-meta-reply-pending", "F31-retry-to-closed-peer", "F32-attach-vs-remove", "F33-publish-vs-close",
 	"W1-parked-chunk-vs-close", "W1-parked-yield-vs-close", "W1-parked-publish-vs-close", "W1-parked-cancel-vs-close"}
 
@@ -624,6 +626,84 @@ func runDirectedShut(t *testing.T, name string) (res ShutResult) {
 				viol("AddRealm after Close succeeded")
 			}
 			w.r.RemoveRealm("r1")
+		case "F9b-attach-racing-close":
+			// a router with a realm template: clients attaching to realms that do not exist yet, while
+			// Router.Close runs. No attach waits for Close or the other way round. Whoever was welcomed
+			// must have been told GOODBYE (or lost its transport) by the time Close has returned: a
+			// realm created from the template behind Close's back would keep serving its client.
+			tr, terr := router.NewRouter(&router.Config{RealmTemplate: realmCfg("tpl"), RealmConfigs: []*router.RealmConfig{realmCfg("r1")}}, log.New(io.Discard, "", 0))
+			if !must(terr) {
+				return
+			}
+			tw := &world{r: tr, sess: map[string]*sess{}, quit: make(chan struct{}), start: time.Now()}
+			defer tw.finish()
+			w.r.Close() // the default world's router is not used here
+			if !must(tw.attach("a", "r1", 8)) {
+				return
+			}
+			var ses []*sess
+			var errcs []chan error
+			racer := func(i int) {
+				se, ec := tw.attachAsync(fmt.Sprint("racer", i), fmt.Sprint("tpl.realm", i), 8, false, nil)
+				ses, errcs = append(ses, se), append(errcs, ec)
+			}
+			for i := 0; i < 4; i++ {
+				racer(i)
+			}
+			done := make(chan struct{})
+			tw.helpers.Add(1)
+			go func() { defer tw.helpers.Done(); tr.Close(); close(done) }()
+			for i := 4; i < 10; i++ {
+				racer(i)
+			}
+			time.Sleep(3 * time.Hour)
+			synctest.Wait()
+			select {
+			case <-done:
+			default:
+				viol("Close did not return within 3 h of virtual time")
+				return
+			}
+			for i, se := range ses {
+				select {
+				case err := <-errcs[i]:
+					if err != nil {
+						res.Stats["racing_attach_refused"]++
+						continue
+					}
+				default:
+					viol("Attach of %s racing Close did not return", se.Name)
+					continue
+				}
+				welcomed, told := false, false
+			drainRacer:
+				for {
+					select {
+					case m, ok := <-se.c.Recv():
+						if !ok {
+							told = true
+							break drainRacer
+						}
+						if _, isW := m.(*wamp.Welcome); isW {
+							welcomed = true
+						}
+						if isShutdownGoodbye(m) {
+							told = true
+						}
+						if ab, isA := m.(*wamp.Abort); isA && ab.Reason == wamp.ErrSystemShutdown {
+							told = true
+						}
+					default:
+						break drainRacer
+					}
+				}
+				if welcomed {
+					res.Stats["racing_attach_welcomed"]++
+				}
+				if welcomed && !told {
+					viol("%s was welcomed to a template realm while Router.Close ran and is still attached after Close returned (no GOODBYE, transport open)", se.Name)
+				}
+			}
 		case "F26-welcome-vs-close":
 			// the attaching goroutine is descheduled right before it would hand over the WELCOME
 			n := 0
